@@ -129,6 +129,9 @@ def check(ck: Checker) -> None:
     from . import round5 as _r5
 
     _r5.local_add_rechecks_unprotected(ck, "C15.heal")
+    from . import round7 as _r7
+
+    _r7.failed_copy_never_trusted(ck, "C15.add")
     from . import round4 as _r4
 
     _r4.hashinfo_identity(ck, "C15.treelast")
